@@ -52,6 +52,7 @@ fn main() {
         "C08" => drive::<vcore::c08::C08>(&args),
         "C07" => drive::<vcore::c07::C07>(&args),
         "C14" => drive::<vcore::c14::C14>(&args),
+        "C05" => drive::<vcore::c05::C05>(&args),
         "C15" => drive::<vcore::c15::C15>(&args),
         _ => {
             eprintln!("unknown property id {id}");
